@@ -140,10 +140,10 @@ impl Monitor for C17 {
         "programs = seeded universes expressible through the C++ DependencyProvider interface (favored / locked pointers, hint lists, exclusions, unions, root constraints, soft requirements, missing packages); the Rust API result (solution vector in order, or the full display_user_friendly text) is written next to a line-based export of the universe; the C++ differential driver implements resolvo::DependencyProvider over the export, calls resolvo::solve and prints its result, which is compared line by line. distinct = content hash; non-trivial = distinct universe that uses >= 2 of {hints, exclusions, locks, favored, unions, soft, constraints}".into()
     }
     fn cases(&self, tier: Tier) -> u64 {
-        tier.pick(4_000, 120_000)
+        tier.pick(8_000, 160_000)
     }
     fn floor(&self, tier: Tier) -> u64 {
-        tier.pick(800, 20_000)
+        tier.pick(800, 8_000)
     }
     fn generate(&self, r: &mut Rng, _tier: Tier, _i: u64) -> SolverCase {
         let (name, cfg) = pick_family(r, FAMILIES);
